@@ -14,6 +14,8 @@ KINDS = {
     "scases": ("isHeaderOnlySpec/shouldChunk/isTextEventStream", "header-only classification = RFC 7230 3.3.3"),
     "hcases": ("writeHeaderOnlyResponse (every Write call)", "a client consumes exactly the written head"),
     "fcases": ("patternFlushWriter.Write (flush per write)", "flush iff a pattern ends inside the write; every completed event flushed"),
+    "wcases": ("http.Handler variant: every call of writeResponse on the ResponseWriter (header map, status, writes, flushes, trailers)",
+               "the server is handed the origin's status, header fields, body and declared trailers; unknown-length bodies flushed per write"),
     "gcases": ("net/http Response.Write (modelled) behind the real flush writer", "-"),
     "ecases": ("end to end through forwarder.NewHTTPProxy: bytes at the raw client", "client parser consumes exactly the k-th response; body/headers/trailers intact"),
     "tcases": ("end to end delivery times", "event/chunk visible before the origin sends the next byte"),
@@ -54,6 +56,8 @@ def classify(kind, case):
         return "flush-not-at-pattern-boundary"
     if kind == "scases":
         return "header-only-classification"
+    if kind == "wcases":
+        return "handler-hands-wrong-data-to-the-server"
     pre = "handler-" if kind == "xcases" else ""
     if kind == "xcases" and case.get("only304ct"):
         return "handler-304-content-type-dropped"
